@@ -112,6 +112,11 @@ class STimeDelta:
     def total_seconds(self):
         return from_int(self.s, -N_MAX * 86400, N_MAX * 86400)
 
+    # the normalised fields of the real timedelta: days = floor(total / 86400), 0 <= seconds < 86400
+    days = property(lambda self: from_int(self.s / 86400, -N_MAX, N_MAX))
+    seconds = property(lambda self: from_int(self.s % 86400, 0, 86399))
+    microseconds = 0
+
     def __add__(self, o):
         if isinstance(o, STimeDelta):
             return STimeDelta._of(self.s + o.s)
